@@ -66,6 +66,23 @@ namespace bloch::cli {
             CliOption{kFlagUpdate, "", "Download and install the latest release"},
         };
 
+        // Writes <file>.qasm next to the source: only the extension of the last path component
+        // is replaced (a '.' in a directory name or in "./" is not one). A file that cannot be
+        // written is reported rather than silently skipped.
+        bool writeQasmFile(const std::string& file, const std::string& qasm) {
+            std::filesystem::path out(file);
+            out.replace_extension(".qasm");
+            std::ofstream qfile(out);
+            qfile << qasm;
+            qfile.close();
+            if (!qfile) {
+                std::cerr << bloch::support::format(bloch::support::MessageLevel::Error, 0, 0,
+                                                    "could not write " + out.string());
+                return false;
+            }
+            return true;
+        }
+
         std::string formattedVersion(const Context& ctx) {
             constexpr std::string_view unknown = "unknown";
             if (ctx.commit == unknown || ctx.commit.empty()) {
@@ -294,10 +311,8 @@ namespace bloch::cli {
                     double elapsed =
                         std::chrono::duration_cast<std::chrono::duration<double>>(end - start)
                             .count();
-                    std::string base = file.substr(0, file.find_last_of('.'));
-                    std::ofstream qfile(base + ".qasm");
-                    qfile << qasm;
-                    qfile.close();
+                    if (!writeQasmFile(file, qasm))
+                        return 1;
 
                     // Warn if nothing was tracked, but still print run header and timing
                     if (aggregate.empty())
@@ -364,10 +379,8 @@ namespace bloch::cli {
                     evaluator.setEcho(echoAll);
                     evaluator.execute(*program);
                     qasm = evaluator.getQasm();
-                    std::string base = file.substr(0, file.find_last_of('.'));
-                    std::ofstream qfile(base + ".qasm");
-                    qfile << qasm;
-                    qfile.close();
+                    if (!writeQasmFile(file, qasm))
+                        return 1;
                     if (emitQasm) {
                         std::cout << qasm;
                         return 0;
